@@ -7,6 +7,7 @@ The manager-level composition (parts tile the object: C14; offset-addressed dest
 -/
 import S3V.Lemmas.Download
 import S3V.Props.C16
+import S3V.Props.Serial
 
 namespace S3V.C02
 open S3V.Download
@@ -239,5 +240,12 @@ example :
       = ([.request, .progress 3, .write 10 3, .progress (-3),
           .request, .progress 2, .write 10 2, .progress 4, .write 12 4, .progress 1, .write 16 1], .ok) := by
   decide
+
+/-- a download on a serial manager that reports success ran every GET, every write and the final
+task to their normal end (`S3V.Serial.serial_no_false_success`): no Ctrl-C, no failure in between -/
+theorem serial_success_means_every_step_ok (plan : List S3V.Serial.Task) (hwf : S3V.Serial.WF plan)
+    (h : (S3V.Serial.manager S3V.Serial.Tables.current plan).1.success = true) :
+    ∀ o ∈ S3V.Serial.allOuts plan, o = .ok :=
+  S3V.Serial.serial_no_false_success plan hwf h
 
 end S3V.C02
